@@ -150,6 +150,11 @@ def scheme(e):
             # two nested constant bindings of different parameters: printed (for half of them) as ONE parameterize with
             # two bindings — one extent with two conses instead of two extents; extents are silent, so same trace
             return "(%s ((p%d %s) (p%d %s)) %s)" % (pz, e[1], scheme(e[2]), inner[1], scheme(inner[2]), scheme(inner[3]))
+        if inner[0] == "param" and inner[1] != e[1] and e[2] == ("pref", inner[1]) and inner[2][0] == "const":
+            # round 4: (param a (pref b) (param b (const c) body)) = "bind pa to the OLD value of pb, then pb to c", printed as ONE
+            # form whose value expression reading pb comes AFTER pb's own clause: R7RS evaluates all value expressions outside
+            # the new bindings (a parameterize that binds clause by clause, like nested forms, gives pa = c instead)
+            return "(%s ((p%d %s) (p%d %s)) %s)" % (pz, inner[1], scheme(inner[2]), e[1], scheme(e[2]), scheme(inner[3]))
         return "(%s ((p%d %s)) %s)" % (pz, e[1], scheme(e[2]), scheme(e[3]))
     if t == "handler":
         return "(%s (lambda (c) (push! 5 %d) (push! 6 (payload c)) %s) (lambda () %s))" % (pick("handler", e[1]), e[1], scheme(e[2]), scheme(e[3]))
@@ -202,6 +207,8 @@ def has_merge(e):
         inner = e[3]
         if (inner[0] == "param" and inner[1] != e[1] and e[2][0] == "const" and inner[2][0] == "const"
                 and (e[2][1] + inner[2][1]) % 2 == 0):
+            return True
+        if inner[0] == "param" and inner[1] != e[1] and e[2] == ("pref", inner[1]) and inner[2][0] == "const":
             return True
     return any(has_merge(x) for x in e[1:] if isinstance(x, tuple))
 
@@ -408,6 +415,10 @@ def templates(rng):
         # two parameters bound by ONE parameterize form (printed so by scheme()), re-entered after exit
         out.append(("seq", ("param", 0, ("const", 7), ("param", 1, ("const", 3), w(("seq", ("callcc", 1, ("pref", 1)), ("pref", 0))))),
                     ("seq", ("pref", 1), ("throw", 1, 2, ("pref", 0)))))
+        # ONE parameterize form whose second value expression reads the parameter bound by the first clause: it must see
+        # the value OUTSIDE the form (5), also after re-entry
+        out.append(("param", 1, ("const", 5), ("seq", ("param", 0, ("pref", 1), ("param", 1, ("const", 7),
+                    w(("seq", ("callcc", 1, ("pref", 0)), ("pref", 1))))), ("seq", ("pref", 0), ("throw", 1, 2, ("pref", 1))))))
         # handler inside winds, continuable raise, handler reads a parameter (must see the raise point's value)
         out.append(("handler", fr.tag(), ("seq", ("pref", 0), ("const", 4)),
                     ("param", 0, ("const", 3), w(("show", ("add", ("const", 10), ("raisec", ("const", 1))))))))
@@ -498,6 +509,67 @@ def sibling_family(rng, thorough):
             seen.add(key)
             rest.append(e)
     return core + rest
+
+
+def deep_family(rng, thorough):
+    """round 4: DEPTH.  Every other stream keeps the dynamic nesting small (wind depth <= 4, two parameters), so code whose
+    behaviour depends on the LENGTH of the dynamic-binding alist, on the depth of the wind chain or on the height of the value
+    stack is not reached.  Here N = 5..40 (thorough ..120) extents of {dynamic-wind, dynamic-wind reading a parameter,
+    parameterize p0/p1, with-exception-handler (returning or re-raising), non-matching guard} are nested around a core:
+      0 read both parameters and raise-continuable at the bottom (alist lookups of the PARAMETER_REF opcode and of the
+        VM raise, N bindings deep; re-raises climb the whole handler chain);
+      1 generator: capture at the bottom, re-enter twice from outside (N befores / afters per jump, parameters re-read);
+      2 cousins N deep on both sides (N afters then N befores, travel-to-point! 2N+1 deep);
+      3 a primitive error at the bottom, caught by a guard outside everything;
+      4 N pending additions (value stack ~4N words) captured with the continuation and re-entered twice: every operand
+        must come back;
+      5/6 a handler / guard whose alist entry lies under N parameter bindings (the C-level handler lookup of the VM raise)."""
+    out = []
+    depths = [5, 8, 9, 15, 16, 17, 24, 31, 33, 40]
+    if thorough:
+        depths += [6, 7, 10, 12, 20, 28, 32, 36, 48, 56, 63, 64, 65, 80, 96, 100, 120] * 3
+
+    def wrapn(fr, b, n, plain=False, only_params=False):
+        for _ in range(n):
+            r = rng.random()
+            if only_params:
+                b = ("param", rng.choice([0, 1]), ("const", rng.randrange(1, 9)), b)
+            elif plain or r < 0.3:
+                b = ("wind", fr.wind(), b)
+            elif r < 0.4:
+                b = ("windp", fr.wind(), rng.choice([0, 1]), b)
+            elif r < 0.7:
+                b = ("param", rng.choice([0, 1]), ("const", rng.randrange(1, 9)), b)
+            elif r < 0.8:
+                b = ("handler", fr.tag(), ("seq", ("pref", rng.choice([0, 1])), ("const", rng.randrange(1, 6))), b)
+            elif r < 0.9:
+                b = ("handler", fr.tag(), ("add", ("pref", rng.choice([0, 1])), ("raisec", ("const", 2))), b)
+            else:
+                b = ("guard", 1, fr.tag(), ("const", 3), b)
+        return b
+    for n in depths:
+        fr = Fresh()
+        out.append(wrapn(fr, ("seq", ("pref", 0), ("add", ("pref", 1), ("raisec", ("const", 2)))), n))
+        fr = Fresh()
+        out.append(("seq", wrapn(fr, ("seq", ("callcc", 1, ("pref", 0)), ("pref", 1)), n), ("seq", ("pref", 1), ("throw", 1, 2, ("pref", 0)))))
+        fr = Fresh()
+        out.append(("seq", ("wind", fr.wind(), ("seq", wrapn(fr, ("callcc", 1, fr.mark()), n), wrapn(fr, ("throw", 1, 1, ("pref", 0)), n))),
+                    ("throw", 1, 2, fr.mark())))
+        fr = Fresh()
+        out.append(("guard", None, fr.tag(), ("pref", 0), wrapn(fr, ("seq", fr.mark(), ("raise", ("const", 999))), n, plain=(n % 2 == 0))))
+        # 5/6: the handler is the OUTERMOST entry of an alist of n parameter bindings (the VM raise's own alist walk,
+        # eval.c sexp_parameter_ref, is a different loop from the PARAMETER_REF opcode's): continuable raise / primitive error
+        fr = Fresh()
+        pb = lambda b: wrapn(fr, b, n, only_params=True)
+        out.append(("handler", fr.tag(), ("seq", ("pref", 0), ("const", 4)), pb(("add", ("pref", 1), ("raisec", ("const", 2))))))
+        fr = Fresh()
+        out.append(("guard", None, fr.tag(), ("pref", 0), pb(("seq", ("pref", 1), ("raise", ("const", 999))))))
+        fr = Fresh()
+        b = ("callcc", 1, ("const", 1))
+        for i in range(3 * n):
+            b = ("add", ("const", 1 + (i * 7 + n) % 9), b)
+        out.append(("seq", ("show", ("wind", fr.wind(), b)), ("throw", 1, 2, ("const", 2))))
+    return out
 
 
 # ---- K-inner on the aliases: every exported procedure spelling is THE SAME OBJECT as the binding the machine mirrors ----
@@ -1193,8 +1265,13 @@ def gc_stream(ctx, exe, bodies, label="forced-gc", only_env=None):
                 if j < n_audit:
                     dense["CHIBI_VERIF_AUDIT"] = "1"
                 scheds.append(dense)
-            scheds.append(dict(CHIBI_VERIF_GC="every:%d" % (2 + j % 2), CHIBI_VERIF_GC_START=str(m1 + (j // 2) % 2)))
-            scheds.append(dict(CHIBI_VERIF_GC="seed:%d:%d" % (seeds[j], 2 + j % 3), CHIBI_VERIF_GC_START=str(m1)))
+            # round 4 (quick tier): a script that got the dense schedule (every:1 = every single- and adjacent-collection
+            # schedule of its run) gets ONE sparse schedule, alternating every:2|3 / seeded; the thorough tier keeps both
+            both = ctx.thorough or not scheds
+            if both or j % 2 == 0:
+                scheds.append(dict(CHIBI_VERIF_GC="every:%d" % (2 + (j // 2) % 2), CHIBI_VERIF_GC_START=str(m1 + (j // 4) % 2)))
+            if both or j % 2 == 1:
+                scheds.append(dict(CHIBI_VERIF_GC="seed:%d:%d" % (seeds[j], 2 + j % 3), CHIBI_VERIF_GC_START=str(m1)))
             if ctx.thorough:
                 # the compilation of the script too (sparser: it is thousands of allocations), and other phases
                 scheds.append(dict(CHIBI_VERIF_GC="seed:%d:%d" % (seeds[j] + 1, 15), CHIBI_VERIF_GC_START=str(m0)))
@@ -1293,12 +1370,12 @@ def gc_bodies(ctx, m1, m2):
     wc = [relabel(s) for n in range(4, 8) for s in enum_grammar(n, memo=m1, **WIND_CORE) if reenters(s)]
     dc = [relabel(s) for n in range(3, 6) for s in enum_grammar(n, memo=m2, **DYN_CORE) if reenters(s)]
     k = 1 if not ctx.thorough else 6
-    out += rng.sample(wc, min(len(wc), (12 if k == 1 else 120)))
-    out += rng.sample(dc, min(len(dc), (10 if k == 1 else 96)))
+    out += rng.sample(wc, min(len(wc), (6 if k == 1 else 120)))
+    out += rng.sample(dc, min(len(dc), (6 if k == 1 else 96)))
     sf = sibling_family(rng, False)[:726]
-    out += rng.sample(sf, 6 * k)                       # sibling / ping-pong jumps under forced collections
+    out += rng.sample(sf, 4 if k == 1 else 36)                       # sibling / ping-pong jumps under forced collections
     got = 0
-    while got < (6 if k == 1 else 60):
+    while got < (4 if k == 1 else 60):
         b = gen_random(rng, rng.choice([8, 10, 12, 14, 18]), Fresh())
         hs = heads(b)
         if "callcc" in hs and "throw" in hs and hs & {"wind", "windp", "param", "handler", "guard"}:
@@ -1311,9 +1388,10 @@ def gc_bodies(ctx, m1, m2):
 
 
 # ------------------------------------------------------------------------------------------------ main
-def run_scripts(ctx, exe, d, bodies, label, override=None):
+def run_scripts(ctx, exe, d, bodies, label, override=None, fuel=None):
     """model first (only scripts the machine finishes are sent to chibi), then chibi; compare traces"""
     t_start = time.time()
+    FUEL = fuel or globals()["FUEL"]
     scripts = [wrap(b) for b in bodies]
     mo = ctx.run_model(exe, ["rundk %d %s" % (FUEL, " ".join(tokens(s))) for s in scripts], timeout=600)
     # the machine over the REGENERATED travel_to_point must agree with the machine over the SPEC script
@@ -1545,7 +1623,16 @@ def run(ctx):
                        "depth (cousins, nephews, parameterize extents), the second taken from inside the re-entered extent (to the first, to a "
                        "third sibling, to the root, to a continuation captured after the re-entry), ping-pong up to 6 times: 726 structured + "
                        "500 (thorough 12000) sampled. RESUMECC on a stack that must grow (raw %call/cc continuation of a deep recursion "
-                       "invoked from another green thread); growth branch of sexp_restore_stack vs the model; values/call-with-values on 0-4 values.")
+                       "invoked from another green thread); growth branch of sexp_restore_stack vs the model; values/call-with-values on 0-4 values. "
+                       "Round 4: stream deep-nesting: 5..40 (thorough ..120) nested extents of {wind, wind reading a parameter, parameterize, "
+                       "handler returning / re-raising, non-matching guard} around 7 cores (parameter reads + raise-continuable at the bottom, "
+                       "generator re-entry through all extents, cousins N deep on both sides, primitive error caught outside, a handler / guard "
+                       "whose alist entry lies under N parameter bindings, 3N pending additions on the value stack captured and re-entered); "
+                       "one parameterize form with two bindings whose second value expression reads the first parameter (theorem "
+                       "parameterize_simultaneous); the C text of the VM raise path, the PARAMETER_REF opcode and the eval.c dynamic-state "
+                       "primitives is pinned.")
+    import sys
+    sys.setrecursionlimit(max(sys.getrecursionlimit(), 20000))      # deep-nesting scripts: several hundred nested terms
     from gen import c06_travel, c06_shapes, c06_exports
     c06_travel.regen(ctx)
     c06_shapes.check(ctx)          # the hand-mirrored Scheme definitions still have the mirrored text
@@ -1592,6 +1679,7 @@ def run(ctx):
         ex3 += [relabel(s) for s in enum_grammar(n, memo=m2, **DYN_CORE)]
     run_scripts(ctx, exe, d, ex3, "exhaustive-dyn-core")
     run_scripts(ctx, exe, d, sib, "sibling-jumps")
+    run_scripts(ctx, exe, d, deep_family(rng, ctx.thorough), "deep-nesting", fuel=20000)
     tp = []
     for _ in range(60 if not ctx.thorough else 1500):
         tp += templates(rng)
